@@ -355,6 +355,13 @@ func (c *Ctx) specCall(name string, e *ast.CallExpr) (Value, bool) {
 			panic(engineErr("first(...) of a non-tuple"))
 		}
 		return v.Elems[0], true
+	case "second", "third":
+		v := c.eval(e.Args[0])
+		k := map[string]int{"second": 1, "third": 2}[name]
+		if v.Kind != KTuple || len(v.Elems) <= k {
+			panic(engineErr("%s(...) of a value without that component", name))
+		}
+		return v.Elems[k], true
 	case "tzero":
 		return Scalar(timeZero(), nil), true
 	case "sameelems":
